@@ -276,14 +276,39 @@ Theorem launch_waiter_waits_unfixed_refuted :
 Proof. exact launch_unfixed_refuted. Qed.
 Print Assumptions launch_waiter_waits_unfixed_refuted.
 
-(* Worker.Launch / Worker.Signal / Background: the waiter gets the worker's result, after the worker finished *)
+(* Worker.Launch / Worker.Signal / Background (WorkerFuture with its `pipe.ch` state): the waiter gets the worker's
+   result, after the worker finished; a call that sees the channel closed, or finds the future disarmed and returns nil
+   at once, does so only after the worker finished and the channel was closed *)
 Theorem worker_launch_waiter_waits :
-  forall R s, vreach R s ->
+  forall R s, vreach false R s ->
   forall t, (forall v, v_pc s t = RGot v -> v = R /\ v_finished s = true) /\
             (v_pc s t = RClosed -> v_bg s = VClosed) /\
+            (v_pc s t = RNil -> v_bg s = VClosed) /\
             (v_pc s t = RCtx -> v_cancelled s t = true).
 Proof. exact worker_launch_waits_proof. Qed.
 Print Assumptions worker_launch_waiter_waits.
+
+(* a wait that gives up because its own context ended leaves the waiter unchanged (re-waitable): the step changes only
+   that caller's program counter, and a later wait with a live context, made while the background worker has not
+   finished, blocks — none of its return steps is enabled *)
+Theorem launch_waiter_rewaitable_after_timeout :
+  (forall R s t s', vstep_exec false R s (VWCtx t) = Some s' ->
+     v_armed s' = v_armed s /\ v_bg s' = v_bg s /\ v_closed s' = v_closed s /\ v_lctx s' = v_lctx s /\
+     v_cancelled s' = v_cancelled s /\ (forall x, x <> t -> v_pc s' x = v_pc s x)) /\
+  (forall R s t, vreach false R s -> v_finished s = false -> v_cancelled s t = false -> v_pc s t = RIdle ->
+     exists s1, vstep_exec false R s (VWCall t) = Some s1 /\ v_pc s1 t = RWaiting /\
+                vstep_exec false R s1 (VWRecv t) = None /\ vstep_exec false R s1 (VWClosed t) = None /\
+                vstep_exec false R s1 (VWCtx t) = None).
+Proof. split; [exact launch_rewaitable_proof|exact launch_later_wait_blocks]. Qed.
+Print Assumptions launch_waiter_rewaitable_after_timeout.
+
+(* the shape in which a context error also disarms the future (pipe.ch = nil): after one timed-out wait a second wait
+   returns nil at once while the background worker is still running *)
+Theorem launch_waiter_rewaitable_after_timeout_refuted :
+  vreach true 7 launch_clear_state /\ v_pc launch_clear_state 1 = RCtx /\ v_pc launch_clear_state 2 = RNil /\
+  v_bg launch_clear_state = VRunning.
+Proof. exact launch_rewaitable_refuted. Qed.
+Print Assumptions launch_waiter_rewaitable_after_timeout_refuted.
 
 (* StartGroup / Add: the waiter returns only after all n background executions have finished *)
 Theorem startgroup_waiter_waits :
@@ -301,7 +326,7 @@ Theorem trace_replays_are_runs :
   (forall R res evs s, replay (adt_tr R res) ainit evs = Some s -> areach false R s) /\
   (forall evs s, replay lock_tr minit evs = Some s -> mreach s) /\
   (forall evs s, replay signal_tr sinit evs = Some s -> sreach true s) /\
-  (forall R evs s, replay (send_tr R) vinit evs = Some s -> vreach R s) /\
+  (forall R evs s, replay (send_tr R) vinit evs = Some s -> vreach false R s) /\
   (forall n evs s0 s, launch_all n n (ginit n) = Some s0 -> replay (group_tr n) s0 evs = Some s -> greach n s).
 Proof.
   repeat split.
